@@ -66,6 +66,7 @@ def extras(rng):
             "novcs": rng.random() < 0.06,
             "noise": rng.choice([[], [], [], ["-v"], ["--pin-increments"], ["--tag-scope", "global"], ["--tag", "final"]]),
             "syntax": rng.choice(["toml", "cfg"]), "fail_rc": rng.choice([3, 3, 1, 255, 127, -9, -15, -13]),
+            "remote_name": rng.choice(["origin", "origin", "origin", "my-fork", "github.com", "up_stream"]),
             # started from inside another release's hook (or a CI job that exports them): the variables are already set
             "inherited_env": rng.choice([None, None, None, None, {"BUMPVER_OLD_VERSION": "0.9.0", "BUMPVER_NEW_VERSION": "0.9.1"},
                                          {"BUMPVER_NEW_VERSION": "7.7.7"}, {"BUMPVER_OLD_VERSION": ""}])}
@@ -106,7 +107,8 @@ def build_world(cfg):
     pers = cfg["pers"]
     if not cfg.get("novcs"):
         os.mkdir(os.path.join(d, ".git" if pers == "git" else ".hg"))
-    repo = fakevcs.FakeRepo(pers, remote=cfg["remote"], tracking=cfg["tracking"])
+    repo = fakevcs.FakeRepo(pers, remote=cfg["remote"], tracking=cfg["tracking"],
+                            remote_name=cfg.get("remote_name", "origin") if pers == "git" else "origin")
     repo.baseline(d)
     if cfg["old_tag"]:
         repo.tags[cfg["old_tag"]] = repo.head_commit()
@@ -138,6 +140,15 @@ def build_world(cfg):
         argv.append("--ignore-vcs-tag")
     argv += list(cfg.get("noise", []))     # flags that have nothing to do with the VCS steps
     return d, repo, plan, argv, cfgname
+
+
+def remote_known(cfg):
+    """Is there a remote bumpver can know of?  The upstream of the current branch, or else a remote called origin."""
+    if not cfg["remote"]:
+        return False
+    if cfg["pers"] != "git":
+        return True
+    return bool(cfg["tracking"]) or cfg.get("remote_name", "origin") == "origin"
 
 
 def expectation(cfg):
@@ -181,7 +192,7 @@ def analyse(cfg, exp, res, ctx, fault=None, cfgname="bumpver.toml", repo=None):
     if unknown:
         ctx.count("unknown_vcs_commands", len(unknown))
 
-    if fetches and not (cfg["fetch"] and cfg["remote"]):
+    if fetches and not (cfg["fetch"] and remote_known(cfg)):
         bad("fetch_when_disabled", "a fetch/pull was issued although %s" % (
             "--no-fetch was given" if not cfg["fetch"] else "no remote exists"))
 
@@ -227,7 +238,7 @@ def analyse(cfg, exp, res, ctx, fault=None, cfgname="bumpver.toml", repo=None):
             bad("step_without_enable", "%s issued although commit is off" % role, role=role)
         if role == "tag" and not exp["tag"]:
             bad("step_without_enable", "tag created although tagging is off (or commit is off)", role=role)
-        if role == "push" and not (exp["push"] and cfg["remote"]):
+        if role == "push" and not (exp["push"] and remote_known(cfg)):
             bad("step_without_enable", "push issued although push is off / no remote", role=role)
     for e in hooks:
         which = "pre" if e["path"].endswith("pre.sh") else "post"
@@ -262,7 +273,7 @@ def analyse(cfg, exp, res, ctx, fault=None, cfgname="bumpver.toml", repo=None):
     prereq = []
     if exp["commit"]:
         chain = [(1, True), (3, exp["pre"]), (4, True), (5, True), (6, exp["post"]), (7, exp["tag"]),
-                 (8, exp["push"] and cfg["remote"])]
+                 (8, exp["push"] and remote_known(cfg))]
         for i, (p, enabled) in enumerate(chain):
             if seen.get(p) and p >= 3:
                 for q, q_enabled in chain[:i]:
@@ -303,7 +314,7 @@ def analyse(cfg, exp, res, ctx, fault=None, cfgname="bumpver.toml", repo=None):
             if not (exp["pre"] and cfg["pre"] == "fail"):
                 want += [(4, True, "stage"), (5, True, "commit"), (6, exp["post"], "post-commit hook")]
                 if not (exp["post"] and cfg["post"] == "fail"):
-                    want += [(7, exp["tag"], "tag"), (8, exp["push"] and cfg["remote"], "push")]
+                    want += [(7, exp["tag"], "tag"), (8, exp["push"] and remote_known(cfg), "push")]
             for p, enabled, name in want:
                 if enabled and not seen.get(p):
                     bad("missing_step", "enabled step '%s' did not run" % name, role=name)
